@@ -238,6 +238,10 @@ def extra(rep, tier, seed, budget):
             c.label = c.label + ' [C08 ownership]'
             cli.handle_function(rep, c20, env20, c, budget, lock)
     rep.trusted.extend(env20.trusted)
+    # assumption of the git model, checked natively (bounded): the real Repository.clone() mirrors the remote,
+    # so that `push --all --prune` never re-creates or moves a branch Bert-E did not touch
+    from bounded import clone_mirror
+    clone_mirror.integrate(rep)
     # known finding: a branch created by a third party after the clone is pruned
     w = replay_prune_third_party()
     rep.bounded.append({'name': 'prune_third_party_branch (native, FakeRepo)', 'cases': 1, 'distinct_nontrivial': 1,
@@ -283,6 +287,9 @@ def replay_prune_third_party():
 
 
 def replay_file(data):
+    if data.get('clause') == 'clone_mirror':
+        from bounded import clone_mirror
+        return clone_mirror.replay(data['case'])
     if 'scenario' in data:
         return replay_prune_third_party()
     return None
